@@ -30,6 +30,7 @@ import (
 	"sort"
 	"strings"
 	"sync"
+	"sync/atomic"
 	"testing"
 	"testing/synctest"
 	"time"
@@ -390,6 +391,28 @@ func (c *vWCase) attackStream(stream []byte) ([]byte, string) {
 
 // ---- one case ------------------------------------------------------------------
 
+// send sites (caller file:line>callee) through which the buffers of the executed cases left the nodes
+var vWSites = struct {
+	mu sync.Mutex
+	m  map[string]int
+}{m: map[string]int{}}
+
+// vTapConn notes the send site of every write of the node under test to an injected stream
+type vTapConn struct{ net.Conn }
+
+func (c *vTapConn) Write(b []byte) (int, error) {
+	func() { vWNoteSites(vSendSites()) }()
+	return c.Conn.Write(b)
+}
+
+func vWNoteSites(sites []string) {
+	vWSites.mu.Lock()
+	for _, s := range sites {
+		vWSites.m[s]++
+	}
+	vWSites.mu.Unlock()
+}
+
 // vWPad: 0..15, spread over the cases
 func vWPad(id int) int { return int((uint32(id) * 2654435761) >> 28) }
 
@@ -444,7 +467,9 @@ func vWRun(t *testing.T, s *vSink, id int, c vWCase) (l vWLine) {
 	var fromB [][]byte
 	hold := true // do not deliver the sender's packets automatically
 	nw.mu.Lock()
+	nw.tapStream = func(from, to *vSimTransport, dir string, buf []byte) { vWNoteSites(vSendSites()) }
 	nw.tapPacket = func(from, to *vSimTransport, buf []byte, fate string) {
+		vWNoteSites(vSendSites())
 		mu.Lock()
 		defer mu.Unlock()
 		if from == A.tr {
@@ -465,7 +490,11 @@ func vWRun(t *testing.T, s *vSink, id int, c vWCase) (l vWLine) {
 		switch c.Msg {
 		case "user":
 			l.SentDigest = vDigest(payload)
-			sendErr = A.m.SendBestEffort(nodeB, payload)
+			if id%2 == 0 {
+				sendErr = A.m.SendBestEffort(nodeB, payload)
+			} else {
+				sendErr = A.m.SendToAddress(addrB, payload)
+			}
 		case "alive":
 			a := alive{Incarnation: 7, Node: "third", Addr: net.IPv4(10, 0, 0, 3).To4(), Port: 7946, Meta: payload, Vsn: []uint8{1, 5, 2, 0, 0, 0}}
 			l.SentDigest = vDigest([]byte(a.Node), []byte{7}, a.Meta)
@@ -477,7 +506,13 @@ func vWRun(t *testing.T, s *vSink, id int, c vWCase) (l vWLine) {
 		case "ping":
 			p := ping{SeqNo: 4242, Node: B.m.config.Name, SourceAddr: ipA, SourcePort: 7946, SourceNode: A.m.config.Name}
 			l.SentDigest = vDigest([]byte("ack"), []byte{0x10, 0x92})
-			sendErr = A.m.encodeAndSendMsg(addrB, pingMsg, &p)
+			if id%2 == 0 {
+				sendErr = A.m.encodeAndSendMsg(addrB, pingMsg, &p)
+			} else {
+				// the public Ping call (it waits for the ack in the background; the ping itself is captured)
+				atomic.StoreUint32(&A.m.sequenceNum, 4241)
+				go func() { _, _ = A.m.Ping(B.m.config.Name, &net.UDPAddr{IP: ipB, Port: 7946}) }()
+			}
 		case "indirect":
 			// ask the receiver to probe a silent third party on our behalf and to nack if it stays silent
 			ind := indirectPingReq{SeqNo: 4242, Target: net.IPv4(10, 0, 0, 77).To4(), Port: 7946, Node: "ghost", Nack: true,
@@ -520,7 +555,7 @@ func vWRun(t *testing.T, s *vSink, id int, c vWCase) (l vWLine) {
 		switch c.Msg {
 		case "userstream":
 			l.SentDigest = vDigest(payload)
-			sendErr = A.m.sendUserMsg(addrR, payload)
+			sendErr = A.m.SendReliable(&Node{Name: "recorder", Addr: net.IPv4(10, 0, 0, 9).To4(), Port: 7946}, payload)
 		case "pushpull":
 			A.d.local = payload
 			l.SentDigest = vDigest(payload)
@@ -606,7 +641,7 @@ func vWRun(t *testing.T, s *vSink, id int, c vWCase) (l vWLine) {
 		time.Sleep(50 * time.Millisecond)
 	} else {
 		c1, c2 := net.Pipe()
-		B.tr.streamCh <- c1
+		B.tr.streamCh <- &vTapConn{Conn: c1}
 		go func() { _, _ = c2.Write(wire) }()
 		var got bytes.Buffer
 		buf := make([]byte, 65536)
@@ -764,7 +799,7 @@ func vWCampaign(t *testing.T, s *vSink, l *vWLine, c vWCase, nw *vNet, B *vWNode
 			time.Sleep(5 * time.Millisecond)
 		} else {
 			c1, c2 := net.Pipe()
-			B.tr.streamCh <- c1
+			B.tr.streamCh <- &vTapConn{Conn: c1}
 			go func() { _, _ = c2.Write(wire); time.Sleep(50 * time.Millisecond); _ = c2.Close() }()
 			buf := make([]byte, 4096)
 			for {
@@ -1161,4 +1196,14 @@ func TestVerifWireCases(t *testing.T) {
 		})
 	}
 	_ = strings.TrimSpace
+	if p := os.Getenv("VERIF_SITES"); p != "" {
+		vWSites.mu.Lock()
+		var names []string
+		for k := range vWSites.m {
+			names = append(names, k)
+		}
+		vWSites.mu.Unlock()
+		sort.Strings(names)
+		_ = os.WriteFile(p, []byte(strings.Join(names, "\n")+"\n"), 0o644)
+	}
 }
